@@ -791,12 +791,17 @@ impl World {
 
     fn changeset(chs: &[Change], lo: usize, hi: usize) -> ChangeV1 {
         let part: Vec<Change> = chs[lo..=hi].to_vec();
+        // sequence ranges tile 0..=last_seq whatever holes the change list has (as ChunkedChanges does):
+        // a cell written twice or a row inserted and deleted in one transaction leaves unused seqs
+        let last_seq = chs[chs.len() - 1].seq;
+        let start = if lo == 0 { klukai_types::base::CrsqlSeq(0) } else { klukai_types::base::CrsqlSeq(chs[lo - 1].seq.0 + 1) };
+        let end = if hi == chs.len() - 1 { last_seq } else { chs[hi].seq };
         ChangeV1 {
             actor_id: peer_actor(),
             changeset: Changeset::Full {
                 version: chs[0].db_version,
-                seqs: part[0].seq..=part[part.len() - 1].seq,
-                last_seq: chs[chs.len() - 1].seq,
+                seqs: start..=end,
+                last_seq,
                 changes: part,
                 ts: Default::default(),
             },
@@ -1391,8 +1396,8 @@ impl Prop for C11 {
     }
     fn default_cases(&self, tier: Tier) -> usize {
         match tier {
-            Tier::Quick => 14,
-            Tier::Thorough => 330,
+            Tier::Quick => 16,
+            Tier::Thorough => 360,
         }
     }
     fn begin(&self) {
